@@ -2,6 +2,7 @@ package props
 
 import (
 	"fmt"
+	"go/token"
 	"strings"
 
 	"golang.org/x/tools/go/ssa"
@@ -396,6 +397,7 @@ func notFresh(g *ssa.Function, depth int) string {
 	if g == nil || len(g.Blocks) == 0 || depth > 3 {
 		return "constructor body not available"
 	}
+	var curRet *ssa.Return
 	var fresh func(v ssa.Value, seen map[ssa.Value]bool) string
 	fresh = func(v ssa.Value, seen map[ssa.Value]bool) string {
 		if seen[v] {
@@ -424,6 +426,33 @@ func notFresh(g *ssa.Function, depth int) string {
 			}
 			return "returns the result of " + x.Common().String()
 		case *ssa.UnOp:
+			// a value kept between calls is as good as new when every way to this return last put a new value there or
+			// cleared the kept one (`if c.spare == nil { c.spare = &T{} } else { c.spare.Reset() }`)
+			if fa, ok := x.X.(*ssa.FieldAddr); ok && x.Op == token.MUL && curRet != nil {
+				same := func(a ssa.Value) bool {
+					fb, ok := a.(*ssa.FieldAddr)
+					return ok && fb.X == fa.X && fb.Field == fa.Field
+				}
+				renewed := func(in ssa.Instruction) bool {
+					switch y := in.(type) {
+					case *ssa.Store:
+						if same(y.Addr) {
+							_, isAlloc := y.Val.(*ssa.Alloc)
+							return isAlloc
+						}
+					case *ssa.Call:
+						if methodNameOf(y) == "Reset" && !y.Call.IsInvoke() && len(y.Call.Args) == 1 {
+							if ld, ok := y.Call.Args[0].(*ssa.UnOp); ok && ld.Op == token.MUL && same(ld.X) {
+								return true
+							}
+						}
+					}
+					return false
+				}
+				if !ir.Reaches(g, curRet, ir.Cut{Barrier: renewed}) {
+					return ""
+				}
+			}
 			return "returns a value read from " + x.X.String() + " (" + x.X.Name() + "), which outlives the call"
 		}
 		return "returns " + v.String() + ", not a value created in the call"
@@ -433,6 +462,7 @@ func notFresh(g *ssa.Function, depth int) string {
 		if !ok || len(ret.Results) != 1 {
 			continue
 		}
+		curRet = ret
 		if why := fresh(ret.Results[0], map[ssa.Value]bool{}); why != "" {
 			return why
 		}
